@@ -234,13 +234,14 @@ func (l *LSTM) Apply(inputs []tensor.Tensor) ([]tensor.Tensor, error) {
 		return nil, err
 	}
 
-	outputMap := map[string]tensor.Tensor{
-		"Y": Y, "Y_h": Yh, "Y_c": Yc,
-	}
+	// Outputs are bound by position, whatever the node calls them: Y, Y_h, Y_c.
+	allOutputs := []tensor.Tensor{Y, Yh, Yc}
 
 	result := []tensor.Tensor{}
-	for _, outputName := range l.outputs {
-		result = append(result, outputMap[outputName])
+	for i := range l.outputs {
+		if i < len(allOutputs) {
+			result = append(result, allOutputs[i])
+		}
 	}
 
 	return result, nil
